@@ -240,9 +240,14 @@ def _step(readers, o, use_files):
     pybtex.io.stderr = buf
     try:
         if o[0]:
-            with E.capture() as captured:
-                v = call_impl(_exec, readers, o, use_files)
-            cap = [[[_errcode(e), []] for e in captured]]
+            # an exception leaves the with block (call_impl is outside it), as in user code
+            box = []
+            def body():
+                with E.capture() as captured:
+                    box.append(captured)
+                    return _exec(readers, o, use_files)
+            v = call_impl(body)
+            cap = [[[_errcode(e), []] for e in (box[0] if box else [])]]
         else:
             v = call_impl(_exec, readers, o, use_files)
             cap = []
@@ -722,12 +727,14 @@ class _Env(object):
         self.badbst = os.path.join(self.dir, 'bad')
         self.nomacro = os.path.join(self.dir, 'nomacro')
         self.db = parse_string(R_BIB, 'bibtex')
-        self.texts = {f: self.db.to_string(f) for f in ('bibtex', 'yaml', 'bibtexml')}
         self.snap0 = _db_snapshot(self.db)
+        self.modified = []
+        self.texts = {}
+        for f in ('bibtex', 'yaml', 'bibtexml'):
+            self.texts[f] = self.db.to_string(f); self.guard('to_string(%r)' % f)
         self.fresh = 0
         d = os.path.join(REPO, 'tests', 'data')
         self.unsrt = os.path.join(d, 'unsrt') if os.path.exists(os.path.join(d, 'unsrt.bst')) else None
-        self.modified = []
     def close(self):
         shutil.rmtree(self.dir, ignore_errors=True)
     def guard(self, what):
@@ -765,7 +772,7 @@ def _r_format_bst(bib, which='bst', capture=False):
         import pybtex.bibtex, pybtex.errors as E
         style = getattr(env, which)
         if capture:
-            with E.capture() as errs:
+            with E.capture() as errs:      # a failing run raises through the with block
                 r = pybtex.bibtex.format_from_string(bib, style=style)
             return _dg((r, [type(e).__name__ for e in errs]))
         return _dg(pybtex.bibtex.format_from_string(bib, style=style))
@@ -820,7 +827,7 @@ REAL_CALLS = collections.OrderedDict([
     ('fresh_names_1100', _r_fresh_names(1100)), ('fresh_names_5', _r_fresh_names(5)), ('name_probe', _r_name_probe),
     ('fail_parse', _r_parse('bibtex', '@article{k, title = }')), ('fail_parse_undefined_macro', _r_parse('bibtex', '@a{k, t = nosuchmacro}')),
     ('fail_parse_captured', _r_fail_captured), ('fail_style', _r_format_py('nosuchstyle', 'latex')),
-    ('fail_bst', _r_format_bst(R_BIB, which='badbst')), ('fail_yaml', _r_parse('yaml', 'entries: [: : :')),
+    ('fail_bst', _r_format_bst(R_BIB, which='badbst')), ('fail_bst_captured', _r_format_bst(R_BIB, which='badbst', capture=True)), ('fail_yaml', _r_parse('yaml', 'entries: [: : :')),
     ('nonstrict', _r_strict(False)), ('strict', _r_strict(True)), ('lowlevel_with_reader_macros', _r_lowlevel),
 ])
 REAL_PROBES = ['parse_bibtex', 'parse_yaml', 'write_bibtex', 'write_bibtexml', 'format_py_unsrt_latex', 'format_py_db_alpha_html',
@@ -973,16 +980,18 @@ def extra_checks(ck, tier, rng):
     import pybtex.bibtex
     _reset(None)
     env2 = _Env()
+    counts = []
     try:
-        counts = []
         for _ in range(2):
             with E.capture() as errs:
                 pybtex.bibtex.format_from_string(R_BIB_COMMAS, style=env2.bst)
             counts.append(len(errs))
+    except Exception as e:
+        counts = [repr(e), None]       # reported by real_api_histories where it matters
     finally:
         env2.close(); _reset(None)
     f19 = [('pybtex.bibtex.format_from_string(%r, style=<small .bst>) twice inside errors.capture()' % R_BIB_COMMAS,
-            'F19-shape: reported problems %r' % counts, True)] if counts[0] != counts[1] else []
+            'F19-shape: reported problems %r' % counts, True)] if counts[0] != counts[1] and counts[1] is not None else []
     yield {'name': 'f19_public_api', 'evaluations': 2, 'failures': f19, 'info': 'reported problems per run: %r' % counts}
 
 _old_sig = KNOWN_SIGNATURES['F19']
